@@ -17,7 +17,7 @@ def runHyp (cfg : Cfg) (s : State Float) (ops : List (List String)) : Option (Li
 def handle : List String → Option String
   | "hyp" :: fs :: fa :: pol :: rest => do
     let fs ← pB fs; let fa ← pB fa; let pol ← pB pol
-    let fl ← runHyp ⟨fs, fa⟩ (State.empty 0.0 pol) (splitOps rest)
+    let fl ← runHyp ⟨fs, fa, false, false⟩ (State.empty 0.0 pol) (splitOps rest)
     some (",".intercalate fl)
   | _ => none
 
